@@ -238,8 +238,16 @@ def search(ctx):
         if self_out:
             # keep the smallest failing input of this program
             self_out.sort(key=lambda v: len(v["input"]["command"]))
-            vios.append(self_out[0])
-            if len(vios) >= 5:
+            # inputs with the signature of known finding F03d are kept apart (at most two) so that they cannot use up the budget
+            cut = [v for v in self_out if _cut_case_signature(v["input"]["command"])]
+            rest = [v for v in self_out if not _cut_case_signature(v["input"]["command"])]
+            if cut and stats["cut_case_reports"] < 2:
+                stats["cut_case_reports"] += 1
+                vios.append(cut[0])
+            if rest:
+                stats["reports"] += 1
+                vios.append(rest[0])
+            if stats["reports"] >= 5:
                 break
     return {
         "violations": vios,
